@@ -172,6 +172,13 @@ func (c *ChordStorage) List(ctx context.Context, prefix string, recursive bool) 
 		return nil, err
 	}
 
+	// ListKeys matches by raw string prefix, so it also returns the keys of sibling
+	// directories that merely share a name prefix ("a/bc/y" for "a/b"): only keys under
+	// the directory itself ("a/b/...") belong to the listing
+	if !strings.HasSuffix(prefix, "/") {
+		prefix += "/"
+	}
+
 	var newKey string
 	found := make([]string, 0)
 	if recursive {
@@ -179,16 +186,19 @@ func (c *ChordStorage) List(ctx context.Context, prefix string, recursive bool) 
 			if key.GetType() != protocol.KeyComposite_SIMPLE {
 				continue
 			}
+			if !strings.HasPrefix(string(key.GetKey()), prefix) {
+				continue
+			}
 			newKey = strings.TrimPrefix(string(key.GetKey()), kvKeyPrefix)
 			found = append(found, newKey)
 		}
 	} else {
 		seen := make(map[string]bool)
-		if !strings.HasSuffix(prefix, "/") {
-			prefix += "/"
-		}
 		for _, key := range keys {
 			if key.GetType() != protocol.KeyComposite_SIMPLE {
+				continue
+			}
+			if !strings.HasPrefix(string(key.GetKey()), prefix) {
 				continue
 			}
 			sub := strings.TrimPrefix(string(key.GetKey()), prefix)
